@@ -708,3 +708,13 @@ mod test {
         assert_eq!(Polynomial::constant(12289), difference);
     }
 }
+
+#[cfg(falcon_rust_verif)]
+pub mod verif_access {
+    use crate::polynomial::Polynomial;
+
+    /// the quantity key generation compares with 1.17^2 q (Algorithm 5, line 9)
+    pub fn gram_schmidt_norm_squared(f: &[i16], g: &[i16]) -> f64 {
+        super::gram_schmidt_norm_squared(&Polynomial::new(f.to_vec()), &Polynomial::new(g.to_vec()))
+    }
+}
